@@ -22,6 +22,7 @@ type clause struct {
 }
 
 type loopSpec struct {
+	assumes    []*clause
 	invariants []*clause
 	decreases  *clause
 }
@@ -447,6 +448,13 @@ func (cs *contractSet) loadFile(path, pkgPath string) error {
 						return fail(err)
 					}
 					ls.invariants = append(ls.invariants, c)
+				case "assume":
+					// an invariant that is ASSUMED, not proved (listed in the evidence; used for bounded stand-ins)
+					c, err := cs.parseClause(f[2], ln, fmt.Sprintf("a%d", len(ls.assumes)+1))
+					if err != nil {
+						return fail(err)
+					}
+					ls.assumes = append(ls.assumes, c)
 				case "decreases":
 					c, err := cs.parseClause(f[2], ln, "decreases")
 					if err != nil {
